@@ -39,4 +39,18 @@ TEXTS = {
   "note": "Not decided: crash instants inside one storage operation, I/O error sequences, cross-process interleavings under flock, what a reader sees mid-rename; those need execution or a model.",
   "technique": "SSA guard/edge dominance (must-pass-through, nil-edge control dependence) + CFG reachability-avoiding for lock discipline",
  },
+ "C02": {
+  "text": "Enumerates every syntactic source of order-nondeterminism in the product packages on each run: R-MAPORDER classifies the effects of every `range` over a map "
+          "(callees resolved through go/types, local closures inlined): commutative effects discharge; a slice appended to in map order discharges only if every CFG path "
+          "from the loop to its next use passes a sort of it or the use is a frozen sorting consumer (each consumer is itself checked to sort); find-any returns, "
+          "last-writer-wins stores and effectful calls must be in the frozen, reasoned triage table, whose checkable reasons (prefix-free literal tables, single-element "
+          "guards) are checked; every other loop is reported as an unreviewed order-sensitive iteration naming the loop, the map and the effect. The same obligation is applied "
+          "to the map-order sources MapKeysToSlice/MapValuesToSlice/maps.Keys/Values at each call site. R-GOAGG checks that job closures run by thread.Parallelize write shared "
+          "variables only index-addressed or under a mutex followed by a sort after the barrier. Marshalling entry points may be referenced only inside protoencoding, whose wire "
+          "marshaler sets Deterministic:true and disables detrand at init. Entropy sources (rand, time.Now, multi-way select) are confined to a frozen allow-list and "
+          "thread.globalParallelism is accessed under its lock. This forbids unsorted aggregation for every schedule and map seed at once, where the suite runs one.",
+  "note": "Not decided: byte equality across runs; nondeterminism inside dependencies (protocompile scheduling); which of several errors is reported when a loop returns early on error "
+          "(class error-choice, stated limitation); the triage reasons that are prose, not checkable. Queries (calls whose value is consumed) are assumed free of order-dependent effects.",
+  "technique": "effect classification of map iterations + CFG sort-before-use must-pass-through + who-may-reference tables (go/types, go/cfg)",
+ },
 }
